@@ -484,6 +484,10 @@ type c05Scn struct {
 	// default with autotuning), so that writes into the peer are partial and the copy
 	// paths see back-pressure (EAGAIN in the middle of a splice/writev round).
 	SockBuf int
+	// Another client connection passes through dae's detection phase (same production
+	// functions, shared buffer pools) between this connection's detection and the
+	// start of its relay - during the dial. "" = none.
+	Intruder string
 }
 
 func (s *c05Scn) Summary() map[string]any {
@@ -503,7 +507,7 @@ func (s *c05Scn) Summary() map[string]any {
 		"memLimit": s.MemLimit, "readChunk": s.ReadChunk, "sniffTimeout": s.SniffT.String(), "dnsTimeout": s.DnsT.String(),
 		"firstKind": s.FirstKind, "open": s.Open, "close": s.Close, "firstFlight": s.First,
 		"c2u": len(s.C2U), "u2c": len(s.U2C), "client": st(s.CSteps), "upstream": st(s.SSteps),
-		"wrapped": s.Wrapped, "probeTimeout": s.ProbeTO, "eofWithData": s.EOFWithData, "finAtomic": s.FinAtomic, "sockBuf": s.SockBuf, "noCloseWrite": s.NoCW,
+		"wrapped": s.Wrapped, "probeTimeout": s.ProbeTO, "eofWithData": s.EOFWithData, "finAtomic": s.FinAtomic, "sockBuf": s.SockBuf, "noCloseWrite": s.NoCW, "intruder": s.Intruder,
 	}
 }
 
@@ -615,6 +619,7 @@ func c05GenScn(t *rapid.T, o c05GenOpt, excludedCase func(id string)) *c05Scn {
 		s.FinAtomic = [2]bool{rapid.Bool().Draw(t, "finAtomicC"), rapid.Bool().Draw(t, "finAtomicS")}
 		s.NoCW = [2]bool{rapid.IntRange(0, 3).Draw(t, "noCloseWriteL") == 0, rapid.IntRange(0, 3).Draw(t, "noCloseWriteR") == 0}
 	}
+	s.Intruder = rapid.SampledFrom([]string{"", "", "random", "tls", "http", "dns-too-small"}).Draw(t, "intruder")
 	chunks := []int{1, 3, 512, 4096, 65536, 65536}
 	s.ReadChunk = [2]int{rapid.SampledFrom(chunks).Draw(t, "crd"), rapid.SampledFrom(chunks).Draw(t, "srd")}
 	s.DnsT = TCPDNSFirstReadTimeout
@@ -656,7 +661,7 @@ func c05GenScn(t *rapid.T, o c05GenOpt, excludedCase func(id string)) *c05Scn {
 	slowCut := 0 // bytes of the first flight sent before the long pause (slow-prefix)
 	switch s.Stack {
 	case c05StackPort53:
-		kinds := []string{"dns-too-small", "dns-response", "dns-garbage", "dns-oversize", "tls", "method-word"}
+		kinds := []string{"dns-too-small", "dns-response", "dns-garbage", "dns-oversize", "dns-length-edge", "tls", "method-word"}
 		if s.Open == c05OpenSlow {
 			kinds = []string{"dns-one-byte", "dns-short-frame", "ssh-banner", "tls-short"}
 		}
@@ -678,6 +683,16 @@ func c05GenScn(t *rapid.T, o c05GenOpt, excludedCase func(id string)) *c05Scn {
 		case "dns-oversize": // declared length beyond bufio's 4096: ErrBufferFull once 4096 bytes are in
 			first = c05DNSGarbageFrame(rapid.IntRange(4095, 9000).Draw(t, "oversize"), seed)
 			must = []int{1, 2, 4095, 4096, 4097}
+		case "dns-length-edge": // declared frame length at the edges of the 16-bit field and of bufio's 4096-byte buffer
+			declared := rapid.SampledFrom([]int{0xffff, 0xfffe, 0xfffd, 0x8000, 0x7fff, 4097, 4096, 4095, 4094, 4093}).Draw(t, "edgeLen")
+			first = make([]byte, 2, 2+5000)
+			binary.BigEndian.PutUint16(first, uint16(declared))
+			first = append(first, c05Fill(seed, rapid.IntRange(0, 5000).Draw(t, "edgeTail"))...)
+			if len(first) >= 16 {
+				first[4] |= 0x80 // QR=1 should the frame be complete: never a query dae would answer itself
+				first[6], first[7] = 0xff, 0xff
+			}
+			must = []int{1, 2, 3}
 		case "method-word": // two letters as a length: far beyond the buffer
 			first = c05MethodWordFlight(t, seed)
 			must = []int{1, 2, 3, 4, 16, 17}
@@ -1226,6 +1241,7 @@ type c05Dae struct {
 	up, down     atomic.Int64
 	dialed       atomic.Int32
 	panicked     string
+	intruded     bool
 }
 
 func (d *c05Dae) markStart() {
@@ -1243,6 +1259,7 @@ func (d *c05Dae) composed(s *c05Scn, lConn net.Conn, rConn netproxy.Conn) {
 		d.endAt = time.Now()
 		return
 	}
+	d.intrude(s) // handleConn dials here
 	d.relayErr = RelayTCPContextWithRecords(context.Background(), lRelayConn, rConn,
 		func(n int64) { d.down.Add(n) }, func(n int64) { d.up.Add(n) })
 	d.endAt = time.Now()
@@ -1298,12 +1315,58 @@ func (d *c05Dae) buildLeft(s *c05Scn, lConn net.Conn) (lRelayConn netproxy.Conn,
 type c05Dialer struct {
 	d    *c05Dae
 	conn netproxy.Conn
+	s    *c05Scn
 }
 
 func (f *c05Dialer) DialContext(context.Context, string, string) (netproxy.Conn, error) {
 	f.d.dialed.Add(1)
 	f.d.markStart()
+	if f.s != nil {
+		f.d.intrude(f.s)
+	}
 	return f.conn, nil
+}
+
+// intrude lets a second client connection go through the detection phase (port-53
+// peek or sniff prefetch + sniffer, the production functions of buildLeft) and go
+// away again, while the connection under test sits between its own detection and
+// its relay. Whatever the first connection retained (prefix, sniffer buffer) must
+// be its own copy: the intruder's bytes are all 0xEE-patterned and recognisable.
+func (d *c05Dae) intrude(s *c05Scn) {
+	if s.Intruder == "" {
+		return
+	}
+	var first []byte
+	stack := c05StackSniff
+	switch s.Intruder {
+	case "tls":
+		first = c05ClientHello("intruder.c05.example", 600, 0xeeee)
+	case "http":
+		first = c05HTTPHead("GET", "intruder.c05.example", 0, 0xee)
+	case "dns-too-small":
+		stack = c05StackPort53
+		first = append([]byte{0, 7}, bytes.Repeat([]byte{0xee}, 64)...)
+	default:
+		first = bytes.Repeat([]byte{0xee}, 96)
+		first[0] = 0x01
+	}
+	a, b := net.Pipe()
+	wdone := make(chan struct{})
+	go func() {
+		defer close(wdone)
+		_, _ = b.Write(first)
+		_ = b.Close()
+	}()
+	s2 := &c05Scn{Stack: stack, SniffT: time.Hour, DnsT: time.Hour}
+	d2 := &c05Dae{}
+	lr, cleanup, ok := d2.buildLeft(s2, a)
+	if ok && lr != nil {
+		// the intruder's relay would now read its stream back out of the wrappers
+		_, _ = io.Copy(io.Discard, lr)
+	}
+	cleanup()
+	<-wdone
+	d.intruded = true
 }
 
 type c05NoDomains struct{}
@@ -1351,7 +1414,7 @@ func c05ControlPlane(s *c05Scn, dialer netproxy.Dialer) (*ControlPlane, *compone
 }
 
 func (d *c05Dae) viaHandleConn(s *c05Scn, lConn net.Conn, rConn netproxy.Conn) {
-	cp, dd := c05ControlPlane(s, &c05Dialer{d: d, conn: rConn})
+	cp, dd := c05ControlPlane(s, &c05Dialer{d: d, conn: rConn, s: s})
 	defer func() { _ = dd.Close() }()
 	d.stackKind = "handleConn"
 	d.relayErr = cp.handleConn(context.Background(), lConn)
@@ -1405,6 +1468,10 @@ func c05Execute(s *c05Scn, cn *c05Conns, limit time.Duration) *c05Result {
 				d.panicked = fmt.Sprintf("%v\n%s", r, debug.Stack())
 				d.markStart()
 				d.endAt = time.Now()
+				// the production code died: nobody will close its two sockets, so
+				// release the peers instead of waiting for the case limit.
+				_ = cn.left.Close()
+				_ = cn.right.Close()
 			}
 		}()
 		if s.HandleConn {
@@ -1486,6 +1553,9 @@ func c05Judge(r *c05Result, o c05GenOpt, exact bool) c05Verdict {
 	cls("first_" + s.FirstKind)
 	if s.RightOpaque {
 		cls("right_opaque")
+	}
+	if d.intruded {
+		cls("intruder_" + s.Intruder + "_between_detection_and_relay")
 	}
 	if l, ok := r.conns.left.(*c05MemConn); ok && l.eofDataHits.Load() > 0 {
 		cls("eof_with_data_from_client_side")
